@@ -316,6 +316,31 @@ BOUND2_PAIRS = BOUND2_QUICK + [('conform7_vcv', 'conform7_rev_vcv'), ('conform14
 HELD = []       # (call name, result object, canonical form at return time): results belong to the caller
 
 
+def scribble(r, args, reg):
+    """A result belongs to the caller, who may work on it in place (flip an axis of a returned matrix, append to a returned list,
+    set a field of a returned object).  Every result that is not one of the call's own arguments (x += y returns x) nor a shipped
+    constant (reported as 'alias') is overwritten at its top level right after the call; later calls must not notice."""
+    import numpy as np
+    skip = [id(a) for a in args] + [id(c) for c in reg.values()] + [id(o) for o in _LIVE.values()]
+    for p in (r if isinstance(r, tuple) else (r,)):
+        if id(p) in skip:
+            continue
+        try:
+            if isinstance(p, np.ndarray):
+                if p.flags.writeable and p.size and p.dtype.kind in 'fiu':
+                    p[...] = 77
+            elif isinstance(p, list):
+                p.append('scribble')
+            elif isinstance(p, dict):
+                p['scribble'] = 77
+            elif hasattr(p, '__dict__') and not isinstance(p, type) and not callable(p):
+                for k, v in list(vars(p).items()):
+                    if isinstance(v, (int, float)) and not isinstance(v, bool):
+                        object.__setattr__(p, k, 77.125)
+        except Exception:
+            pass
+
+
 def execute(name):
     """one real call: returns (canonical result, list of argument violations)"""
     if name in SHARED_CALLS:
@@ -331,7 +356,9 @@ def execute(name):
         # an operation documented to build a new object that hands out the shipped constant itself: the caller's edits of "its"
         # result would rewrite the constant
         res = ('alias', tuple(alias[:2])) if alias else ('ok', snp.canon(r))
-        HELD.append((name, r, res[1]))
+        if not alias:
+            scribble(r, args, reg)
+        HELD.append((name, r, snp.canon(r)))
         del HELD[:-4]
     except Exception as e:
         res = ('raise', type(e).__name__, str(e)[:120])
